@@ -69,3 +69,16 @@ CHECKS['C17'] = dict(level='proof',
         '_mm_shuffle_ps/_mm_shuffle_epi32/_mm_permute to shufflevector.',
    technique='bit-provenance analysis of instantiated LLVM IR (concat/slice/shuffle normal forms) + compile-fail existence witnesses')
 NOT_APPLICABLE.pop('C17', None)
+
+CHECKS['C03'] = dict(level='translation_validation',
+   text='Every vec3/vec4/mat3/mat4/quat operation with a SIMD specialisation (arithmetic/bitwise/shift/comparison operators, abs/sign/floor/ceil/round/trunc/fract/mod/min/max/clamp/step/'
+        'sqrt/inversesqrt/mix/smoothstep/fma, dot/cross/length/distance/normalize/faceforward/reflect/refract, matrix product/transpose/determinant/inverse/outerProduct, quaternion '
+        'product/rotation/conjugate/inverse/lerp, int<->float conversions) is instantiated under GLM_FORCE_PURE (packed) and under GLM_FORCE_INTRINSICS (aligned) at SSE2 ... AVX2+FMA and '
+        'GLM_FORCE_QUAT_DATA_WXYZ; output lanes are matched by component name. Class A operations must give the identical term / integer polynomial / decision; class B (multi-term float) '
+        'ring-equal normal forms with the same branch decisions under every order relation of the compared operands; only lowp kernels may contain rcp/rsqrt atoms; every kernel must '
+        'instantiate at every ISA level.',
+   note='programs = kernel pairs. Not decided (UNDECIDED, listed in the evidence): pairs that implement the same function by different numeric algorithms (SSE2 magic-constant floor/ceil/round/'
+        'fract/mod, movemask-based refract), accuracy of lowp rcp/rsqrt, rounding magnitude; sign of zero and NaN operands are outside C03\'s documented domain and not distinguished. '
+        'Trusted: clang lowering of intrinsics to generic IR and the ~40 lane-wise transfer functions in laneflow/x86.py.',
+   technique='cross-build differential of instantiated LLVM IR (pure vs intrinsic): term identity, polynomial normal forms, decision tables over order relations, who-may-use rule for rcp/rsqrt')
+NOT_APPLICABLE.pop('C03', None)
